@@ -170,6 +170,18 @@ CLAIMED['C06'] = dict(
           "oracle's identity/equality comparison of every public value between neighbouring units; tolerances 2x/3x iteration precision."),
     ref="DESIGN.md section 4 C06")
 
+CLAIMED['C15'] = dict(
+    technique="Coq proofs over R (lra/nra, sqrt lemmas, list extremes) about the factories regenerated from the source by translator T-I, relative to a sampled kernel law for shapely's buffer",
+    text=("For each factory branch regenerated from profile.py (argument alternative, range guard, core polygon, buffer radius): when the "
+          "guard accepts, the buffered extents are exactly the requested/documented ones (round 2r; box w x h; diamond w x h; square "
+          "diagonal - 2r(sqrt2-1) with diagonal^2 = 2 side^2; hexagon height = sqrt3 side, width = 2 side - 2r(2/sqrt3 - 1), the three "
+          "parametrisations agree), centred on the origin; the accepted argument patterns are exactly 'one of the alternatives'. "
+          "Validity, area, mirror symmetry, error raising for 33 bad argument sets, keyword passthrough and from_polygon guards are "
+          "checked on the implementation (partial); from_groove is covered under C08."),
+    note=("Trusted: Coq kernel; Reals axioms; translator T-I (validated by rebuilding each shape from the regenerated core and radius); "
+          "kernel law K4 for shapely's round-join buffer (sampled, tolerance twice the arc discretisation)."),
+    ref="DESIGN.md section 4 C15")
+
 NOT_YET = {}
 
 
